@@ -331,7 +331,8 @@ impl AddAssign<PerVisibleRangeConstraints> for PerVisibleRangeConstraints {
             (None, Some(m)) | (Some(m), None) => Some(m),
             _ => None,
         };
-        self.extensible = self.extensible || rhs.extensible;
+        // X.680 50.8: a serial constraint applies to the parent without its extension marker
+        self.extensible = rhs.extensible;
         self.is_size_constraint = self.is_size_constraint || rhs.is_size_constraint;
     }
 }
